@@ -150,6 +150,7 @@ var _ = ssa.Value(nil)
 // bytes together with io.EOF).
 func (c *Ctx) joinEOF(rule string) {
 	fn := c.fn("(*joinReader).Read")
+	rF := c.P.Field("joinReader", "r")
 	ok, why := true, "io.EOF of a message's reader is replaced before Read returns"
 	n := 0
 	c.explore(rule, fn, core.Opts{Unroll: 0, RecordLoads: true}, func(p *core.Path) {
@@ -167,6 +168,19 @@ func (c *Ctx) joinEOF(rule string) {
 		}
 		n++
 		le := p.X.ExtractOf(last.Result, 1, nil)
+		// a reader that reported io.EOF is finished: it is dropped in the same call (reading it again is not
+		// guaranteed to report io.EOF again: the inflating reader answers io.ErrClosedPipe after its end)
+		if knownEOF(p, le) {
+			dropped := false
+			for i := range p.Events {
+				if ev := &p.Events[i]; ev.Kind == core.EvStore && ev.Addr.Kind == core.KFieldAddr && ev.Addr.Var == rF && ev.Val.IsNil() {
+					dropped = true
+				}
+			}
+			if !dropped {
+				ok, why = false, "the path returning at "+c.P.Pos(p.Ret.Pos())+" keeps the message reader although it has reported io.EOF: the next call reads a finished reader again"
+			}
+		}
 		if strip(p.Results[1]) != le {
 			return
 		}
@@ -298,4 +312,48 @@ func (c *Ctx) readerSiblings(rule string) {
 		pos = badFn.Pos()
 	}
 	c.R.Check(rule, "package", "no-undecided-delivery-method", pos, bad == "" && n >= 4, why)
+}
+
+// readJSONRule: ReadJSON is NextReader + Decode and nothing else decides the
+// outcome: a message the decoder accepted is returned without error, and an
+// error of the decoder (a CloseError or handler error raised between
+// fragments, a transport error, a syntax error) is returned as that very value
+// (io.EOF excepted, which becomes io.ErrUnexpectedEOF).
+func readJSONRule(c *Ctx, rule string) {
+	fn := c.fn("(*Conn).ReadJSON")
+	ok, why := true, "nil after a successful Decode; the decoder's own error value otherwise"
+	n := 0
+	c.explore(rule, fn, core.Opts{}, func(p *core.Path) {
+		if p.End != core.EndReturn || len(p.Results) != 1 {
+			return
+		}
+		var dec *core.Event
+		for i := range p.Events {
+			ev := &p.Events[i]
+			if ev.Kind == core.EvCall && ev.Static != nil && extName(ev.Static) == "(*encoding/json.Decoder).Decode" {
+				dec = ev
+			}
+		}
+		if dec == nil {
+			return
+		}
+		n++
+		de := dec.Result
+		res := p.Results[0]
+		isNil := hasLit(p, len(p.Lits), true, func(t *core.Term) bool { return isEqNil(t, func(y *core.Term) bool { return y == de }) })
+		if isNil {
+			if !res.IsNil() && strip(res) != de {
+				ok, why = false, "ReadJSON returns "+res.String()+" at "+c.P.Pos(p.Ret.Pos())+" although the decoder accepted the message (a second look at the reader is not guaranteed to see io.EOF again: the inflating reader reports a different error after its end)"
+			}
+			return
+		}
+		if strip(res) == de {
+			return
+		}
+		if knownEOF(p, de) {
+			return // replaced by io.ErrUnexpectedEOF: C05.readjson
+		}
+		ok, why = false, "ReadJSON returns "+res.String()+" at "+c.P.Pos(p.Ret.Pos())+" instead of the error the decoder got from the connection: a *CloseError or a handler's error is no longer recognisable"
+	})
+	c.R.Check(rule, shortFn(fn), "outcome-is-the-decoders", fn.Pos(), ok && n > 0, why)
 }
